@@ -24,6 +24,12 @@ checks = {
  "C03": ("exploration", "enum", E1,
          "Every payload length 0..255 x direction x key/DevAddr/FCnt alphabets x buffer layouts through the exported EncryptFRMPayload, every FOpts length incl. the rejected 16+, and the four PHYPayload methods over every MType x FPort x FOpts form x FRMPayload form, compared with the specification keystream; lossless-or-error is decided per call (nil error => bytes must equal the spec transform).",
          "crypto/aes trusted; key/DevAddr/FCnt alphabets plus single-bit walks."),
+ "C01": ("exploration", "enum", E1,
+         "The product of all frame shape dimensions (MType, all FCtrl flag combinations, every FOpts length 0..15 in command and opaque form, FPort absent/0/1/223/224/255, FRMPayload lengths, port-0 command lists) with value alphabets for FCnt/DevAddr, all DLSettings x RXDelay x CFList kinds and CFList content alphabets for join-accepts, join/rejoin requests and proprietary frames: encode must succeed, equal an independently written serialiser, and decode back to the same frame under the property's stated equivalences; base64 text form likewise.",
+         "Opaque byte contents are position-distinct fillers (data independence); quick enumerates 11 FRMPayload lengths, thorough all 243."),
+ "C04": ("exploration", "enum", E1,
+         "All join-request/rejoin type x EUI/nonce/NetID/key alphabets; join-accepts over all 256 DLSettings x RXDelay 0..15 x CFList kinds x JoinReqType x keys and the full value-alphabet product; complete single-bit walks over every MIC input with OptNeg set and clear; every result compared with independently written CMAC / AES-ECB (device side recovers payload|MIC with AES-encrypt) and the decrypt path through marshal/unmarshal.",
+         "crypto/aes trusted; alphabets + single-bit walks for the 64/128-bit inputs."),
 }
 
 def load_extra():
